@@ -243,7 +243,7 @@ func runC06(k *kernel.K) {
 		if elapsed < 24*time.Hour*300 {
 			if inFlight() == 0 {
 				add(kernel.Action{Key: "clock jump between handshakes", W: 2, Class: kernel.Clock, Fault: "clock_jump_between_handshakes", Do: func() {
-					d := []time.Duration{validity / 2, validity - time.Second, validity + time.Second, 2 * validity, 2*validity + time.Minute, 5 * validity}[k.S.Draw(6)]
+					d := []time.Duration{validity / 2, validity - time.Second, validity + time.Second, 2 * validity, 2*validity + time.Minute, 5 * validity, validity + validity/20, validity / 20}[k.S.Draw(8)]
 					elapsed += d
 					k.Advance(d)
 				}})
